@@ -37,8 +37,11 @@ def main(argv):
         for s in range(nshards):
             out = os.path.join(tmp, 'shard%d.json' % s)
             log = open(os.path.join(tmp, 'shard%d.log' % s), 'wb')
+            # the workers' scratch directories live below this run's own directory, so that they are removed with it even
+            # if a worker is killed
+            wenv = dict(os.environ, VERIF_SCRATCH=tmp)
             p = subprocess.Popen([sys.executable, '-m', 'vf.worker', prop, tier, str(seed), str(s), str(nshards), out],
-                                 stdout=log, stderr=subprocess.STDOUT, cwd=common.VERIF_DIR)
+                                 stdout=log, stderr=subprocess.STDOUT, cwd=common.VERIF_DIR, env=wenv)
             procs.append((s, p, out, log))
         deadline = t0 + WORKER_TIMEOUT_S[tier]
         results = []
@@ -64,8 +67,21 @@ def main(argv):
         for s, p, out, log in procs:
             if p.poll() is None:
                 p.kill()
-        shutil.rmtree(tmp, ignore_errors=True)
+                p.wait()
+        _force_rmtree(tmp)
     return conclude(prop, tier, seed, mod, results, dead, time.time() - t0)
+
+
+def _force_rmtree(path):
+    def onerr(func, p, exc):
+        try:
+            os.chmod(os.path.dirname(p), 0o700)
+            os.chmod(p, 0o700)
+            func(p)
+        except Exception:
+            pass
+
+    shutil.rmtree(path, onerror=onerr)
 
 
 def _sum_counts(results):
